@@ -66,7 +66,7 @@ CHECKS = {
              "common azimuth rotation with arbitrary re-wrapping (north seam); the azimuth mask admits exactly its arc, wrapping or not; over the "
              "reals, arccos x <= t iff cos t <= x and the limb test arcsin(z/rho) < arcsin(Rl/d) - pi/2 iff the tangent-cone inequality. Tied to the "
              "code by differential runs of the real predicates (real Radar for the masks) and an independent exact/atan2 geometric oracle."
-             " Fields of view are also built through FieldOfView.fromConfig after another sensor's that shares the first angle; surface sites 1-60 km apart are among the line-of-sight pairs.",
+             " Fields of view are also built through FieldOfView.fromConfig after another sensor's that shares the first angle; surface sites 1-60 km apart are among the line-of-sight pairs. lineOfSight and RectangularFoV.inFieldOfView (and Sensor.isVisible with its masks) are translated from /repo on every run (RV/Generated/Geometry.lean, Sensors.lean) and proved equal to the model's predicates on the vector primitives (RV/Bridge/Geometry.lean, Sensors.lean).",
         note=BASE_TB + "numpy norm/arccos/arcsin/arctan2 are library calls (model in algebraic form, equivalence proved over the reals); decisions "
              "within rounding of a boundary are skipped and counted. The partial-occultation lens-area value is range-checked on samples only (not proved).",
         technique="Lean 4 proof (ordered-field algebra + real analysis) + differential correspondence + independent geometric oracle",
